@@ -6,8 +6,10 @@
      param = addr,kind,dflt,guards,anc,canon      (rank order)
      walk  = s<idx> | a<base>:<first>:<len>
      tree  = depth,namehex,enabledByHex|-,dependsHex|-,defaultDependsHex|-   (pre-order)
+  Mode `wf` (driver only, used by tools/props/c12.py to report which hypotheses of the theorems hold for
+  each application of the pool): Bool versions of `App.WF`'s clauses, `MetaCovers` and `MetaRanked`.
 -/
-import RtoscModel.Save.Save
+import RtoscModel.Save.Spec
 import RtoscModel.Save.Apropos
 import Driver.Common
 namespace Driver.SaveEngine
@@ -254,8 +256,82 @@ def randomPerms : Nat → Nat → Nat → List (List Nat)
     let (p, x') := shuffle (n - 1) (List.range n) x
     p :: randomPerms k n x'
 
+/-- the two results print the same (`showResF`): same outcome and count, the same parameters visible, with the
+    same values — decided without building the strings -/
 def sameRes (app : App) (a b : LoadRes) : Bool :=
-  showResF app a == showResF app b
+  match a, b with
+  | .ok s n, .ok t m =>
+    n == m && (app.params.zipIdx.all fun (p, i) =>
+      let gs := guardsOn p s
+      gs == guardsOn p t && (!gs || decide (s i = t i)))
+  | .fail, .fail => true
+  | .undefined, .undefined => true
+  | _, _ => false
+
+/-! ### Bool versions of the theorems' hypotheses, evaluated per application (mode `wf`) -/
+def coversFor (app : App) (anc : List Nat) (addr : Path) : Bool :=
+  let refs : List Path := refsOf app.apropos addr
+  anc.all fun a =>
+    refs.contains (app.param a).addr ||
+    anc.any fun m => (app.param m).anc.contains a && refs.contains (app.param m).addr
+
+/-- `App.MetaCovers` -/
+def coversB (app : App) : Bool :=
+  ((List.range app.size).all fun d => coversFor app (app.param d).anc (app.param d).addr) &&
+  app.walk.all fun it => match it with
+    | .scalar _ => true
+    | .array base first _ => coversFor app (app.param first).anc base
+
+/-- depth of the reference graph below `X` (`none`: deeper than the fuel) -/
+def refDepth (ap : Path → Option DepMeta) : Nat → Path → Option Nat
+  | 0, _ => none
+  | fuel + 1, X => (refsOf ap X).foldl (fun acc Y => match acc, refDepth ap fuel Y with
+      | some a, some b => some (max a (b + 1))
+      | _, _ => none) (some 0)
+
+/-- `MetaRanked` on the paths the scan can start from (the addresses of the walk) -/
+def rankedB (app : App) : Bool :=
+  (app.walk.map app.itemAddr ++ app.params.map (·.addr)).all fun X => (refDepth app.apropos scanFuel X).isSome
+
+def ancLtB (app : App) : Bool := (List.range app.size).all fun i => (app.param i).anc.all fun a => a < i
+def closedB (app : App) : Bool := (List.range app.size).all fun i => (app.param i).anc.all fun a =>
+  (app.param a).anc.all fun b => (app.param i).anc.contains b
+def chainB (app : App) : Bool :=
+  (List.range app.size).all fun i => (app.param i).anc.all fun a => (app.param i).anc.all fun b =>
+    a == b || (app.param b).anc.contains a || (app.param a).anc.contains b
+def guardsAncB (app : App) : Bool := (List.range app.size).all fun i => (app.param i).guards.all fun g => (app.param i).anc.contains g.1
+def presetAncB (app : App) : Bool := (List.range app.size).all fun i => match (app.param i).dflt with
+  | .preset par _ _ => (app.param i).anc.contains par
+  | .const _ => true
+def addrNodupB (app : App) : Bool :=
+  let as := app.params.map (·.addr)
+  as.eraseDups.length == as.length
+def itemAddrNodupB (app : App) : Bool :=
+  let as := app.walk.map app.itemAddr
+  as.eraseDups.length == as.length
+def canonB (app : App) : Bool := (List.range app.size).all fun i => decide ((app.param i).canon = evalDflt (app.param i) app.init)
+def dfltStorableB (app : App) : Bool := (List.range app.size).all fun i =>
+  let k := (app.param i).kind
+  (app.param i).dflt.vals.all fun v => decide (store k (mapArgVal k (canonicalize k v)) = some (canonicalize k v))
+/-- `WF.array_ok`; the second component: all its clauses except "constant defaults" -/
+def arrayOkB (app : App) : Bool × Bool :=
+  app.walk.foldl (fun acc it => match it with
+    | .scalar _ => acc
+    | .array base first len =>
+      let shape := (app.findAddr base).isNone && (List.range len).all fun k =>
+        let p := app.param (first + k)
+        p.addr == base ++ natDigits k && p.guards == (app.param first).guards && p.anc == (app.param first).anc &&
+        (List.range app.size).all fun j => !(app.param j).anc.contains (first + k)
+      let const := (List.range len).all fun k => match (app.param (first + k)).dflt with | .const _ => true | _ => false
+      (acc.1 && shape && const, acc.2 && shape)) (true, true)
+
+def b01 (b : Bool) : String := if b then "1" else "0"
+
+def wfReport (app : App) : String :=
+  let ao := arrayOkB app
+  s!"WF addr_nodup={b01 (addrNodupB app)} anc_lt={b01 (ancLtB app)} anc_closed={b01 (closedB app)} anc_chain={b01 (chainB app)} " ++
+  s!"guards_anc={b01 (guardsAncB app)} preset_anc={b01 (presetAncB app)} dflt_storable={b01 (dfltStorableB app)} canon_ok={b01 (canonB app)} " ++
+  s!"item_addr_nodup={b01 (itemAddrNodupB app)} array_ok={b01 ao.1} array_shape={b01 ao.2} MetaCovers={b01 (coversB app)} MetaRanked={b01 (rankedB app)}"
 
 def step (line : String) : String :=
   match words line with
@@ -272,6 +348,7 @@ def step (line : String) : String :=
       let fileT : File := { file0 with body := lines0.map fun l => if scansBack l then some l else none }
       let file : File := { file0 with body := lines.map some }
       if mode = "txt" then "TXT -" else
+      if mode = "wf" then wfReport app else
       if mode = "meta" then
         match splitC desc '|' with
         | [_, _, _, ts] => "M " ++ ts
